@@ -20,6 +20,14 @@ type PageCache struct {
 	// per file name
 	files map[string]*cachedFile
 
+	// RefillAfterInvalidate makes the cache behave like a kernel with an eager
+	// lock-less reader (readahead, `cp`, a backup agent): right after LiteFS has
+	// invalidated a range of the database file the blocks are read again through
+	// the handler and cached. That is only harmless if the file already holds the
+	// final bytes when the invalidation is issued (write first, invalidate after).
+	RefillAfterInvalidate bool
+	Refills               int
+
 	// observation counters
 	InvDB, InvRange, InvSHM, InvPos, InvEntry int
 	Fills, Hits                               int
@@ -28,6 +36,12 @@ type PageCache struct {
 type cachedFile struct {
 	blocks   map[int64][]byte
 	lastSize int64
+	// gen counts invalidations per block, allGen those of the whole file. A fill
+	// that was in flight while its block was invalidated is not installed: the
+	// kernel keeps the folio locked during the read, the invalidation waits for it
+	// and then removes it.
+	gen    map[int64]uint64
+	allGen uint64
 }
 
 func newPageCache(n *Node) *PageCache {
@@ -37,7 +51,7 @@ func newPageCache(n *Node) *PageCache {
 func (c *PageCache) file(name string) *cachedFile {
 	f := c.files[name]
 	if f == nil {
-		f = &cachedFile{blocks: map[int64][]byte{}, lastSize: -1}
+		f = &cachedFile{blocks: map[int64][]byte{}, lastSize: -1, gen: map[int64]uint64{}}
 		c.files[name] = f
 	}
 	return f
@@ -55,12 +69,10 @@ func (c *PageCache) invalidateRange(name string, off, size int64) {
 	}
 	c.mu.Lock()
 	defer c.mu.Unlock()
-	f := c.files[name]
-	if f == nil {
-		return
-	}
+	f := c.file(name)
 	for b := off / blockSize; b <= (off+size-1)/blockSize; b++ {
 		delete(f.blocks, b)
+		f.gen[b]++
 	}
 }
 
@@ -76,6 +88,7 @@ func (c *PageCache) truncate(name string, size int64) {
 			delete(f.blocks, b)
 		}
 	}
+	f.allGen++
 	f.lastSize = size
 }
 
@@ -95,6 +108,7 @@ func (c *PageCache) Read(f *File, owner uint64, p []byte, off int64) (int, error
 				delete(cf.blocks, b)
 			}
 		}
+		cf.allGen++
 	}
 	cf.lastSize = size
 	c.mu.Unlock()
@@ -111,6 +125,7 @@ func (c *PageCache) Read(f *File, owner uint64, p []byte, off int64) (int, error
 		b := pos / blockSize
 		c.mu.Lock()
 		blk, ok := cf.blocks[b]
+		gen, allGen := cf.gen[b], cf.allGen
 		c.mu.Unlock()
 		if !ok {
 			want := int64(blockSize)
@@ -125,7 +140,9 @@ func (c *PageCache) Read(f *File, owner uint64, p []byte, off int64) (int, error
 			_ = got
 			blk = buf
 			c.mu.Lock()
-			cf.blocks[b] = blk
+			if c.files[f.Name] == cf && cf.gen[b] == gen && cf.allGen == allGen {
+				cf.blocks[b] = blk
+			}
 			c.Fills++
 			c.mu.Unlock()
 		} else {
@@ -156,7 +173,30 @@ func (c *PageCache) InvalidateDBRange(db *litefs.DB, offset, size int64) error {
 	c.InvRange++
 	c.mu.Unlock()
 	c.invalidateRange(db.Name(), offset, size)
-	return c.n.FS.InvalidateDBRange(db, offset, size)
+	err := c.n.FS.InvalidateDBRange(db, offset, size)
+	if c.RefillAfterInvalidate && size > 0 {
+		c.refill(db.Name(), offset, size)
+	}
+	return err
+}
+
+// refill reads the blocks of [off, off+size) through the handler, without any
+// lock, and caches them (see RefillAfterInvalidate).
+func (c *PageCache) refill(name string, off, size int64) {
+	f, err := c.n.Open(name)
+	if err != nil {
+		return
+	}
+	defer func() { _ = f.Release() }()
+	buf := make([]byte, blockSize)
+	for b := off / blockSize; b <= (off+size-1)/blockSize; b++ {
+		if _, err := c.Read(f, 990001, buf, b*blockSize); err != nil {
+			return
+		}
+		c.mu.Lock()
+		c.Refills++
+		c.mu.Unlock()
+	}
 }
 
 func (c *PageCache) InvalidateSHM(db *litefs.DB) error {
@@ -189,5 +229,5 @@ func (c *PageCache) InvalidateLag() error { return c.n.FS.InvalidateLag() }
 func (c *PageCache) Stats() map[string]int {
 	c.mu.Lock()
 	defer c.mu.Unlock()
-	return map[string]int{"inv_db": c.InvDB, "inv_range": c.InvRange, "inv_shm": c.InvSHM, "inv_pos": c.InvPos, "inv_entry": c.InvEntry, "fills": c.Fills, "hits": c.Hits}
+	return map[string]int{"inv_db": c.InvDB, "inv_range": c.InvRange, "inv_shm": c.InvSHM, "inv_pos": c.InvPos, "inv_entry": c.InvEntry, "fills": c.Fills, "hits": c.Hits, "refills": c.Refills}
 }
